@@ -604,3 +604,19 @@ def run(repo: Repo, rep: Report, tier: str) -> None:
             rep.check(not foreign, "C01-R15", f"injection loop reaches {meth} for every {'decider' if needs else 'combinator'}",
                       "guarded by the entity type only" if not foreign else
                       f"reached only under `{foreign[0][:80]}`: a decider to which that does not apply misses this selection and reads red + green", iw.loc(c15))
+
+    # ---------------- R16 --------------------------------------------------------------
+    rep.rule("C01-R16", "an operand that is a wire merge is read on the colour its sources were wired with: a merge has no entity, so the colour question for "
+             "(merge id, sink, signal) is answered from the planned edges that originate from that merge (`originating_merge_id == <source asked for>` and the same sink) — "
+             "without that the operand is read on red whatever the wires are, and `(a + b) * (c + d)` on one signal type multiplies a+b by itself")
+    gw = repo.func("ConnectionPlanner.get_wire_color_for_edge")
+    src_p, sink_p = [p_ for p_ in gw.params if p_ != "self"][:2]
+    hits16 = []
+    for comp in [n for n in ast.walk(gw.node) if isinstance(n, (ast.SetComp, ast.ListComp, ast.GeneratorExp, ast.DictComp, ast.For))]:
+        txt = " ".join(norm(x) for x in ast.walk(comp) if isinstance(x, ast.Compare))
+        if f".originating_merge_id == {src_p}" in txt and f".sink_entity_id == {sink_p}" in txt and "_circuit_edges" in norm(comp):
+            hits16.append(comp)
+    uses_colours = any("_edge_wire_colors" in norm(h) or "_edge_color_map" in norm(h) for h in hits16)
+    rep.check(bool(hits16) and uses_colours, "C01-R16", "get_wire_color_for_edge answers for a merge id from the edges the merge expanded into",
+              "edges with originating_merge_id == source and the same sink, colours from the planned edge colours" if hits16 and uses_colours else
+              "no lookup by originating merge: a merge operand falls through to the default `red`", gw.loc())
